@@ -2,7 +2,7 @@
 import json
 import os
 
-from ..core import crashed, Result, out_bytes, cli
+from ..core import crashed, Result, out_bytes, cli, scrub_env
 from .. import gen, model, ser
 from ..val import veq, clone, drop_nulls, strings_of, has_marker, is_directive_string, walk
 
@@ -65,7 +65,7 @@ def inject(rng, t, labels, hidden_ok=True, keypool=None):
 def gen_case(rng, i, tier):
     labels = set()
     nl = rng.choice([1, 2, 2, 3])
-    mode = rng.choice(['marker', 'marker', 'required', 'hidden', 'encode'])
+    mode = rng.choice(['marker', 'marker', 'required', 'hidden', 'encode', 'selected-elsewhere'])
     labels.add('mode:' + mode)
     base = gen.tree(rng, 3, 3, nulls=False, root='map')
     if mode == 'required':
@@ -109,6 +109,15 @@ def gen_case(rng, i, tier):
         # markers placed after the upper layers were derived: no upper layer touches them
         inject(rng, base, labels, keypool=['mk1', 'mk2', 'mk3', 'mk4'])
         labels.add('marker:untouched-by-upper-layers')
+    if mode == 'selected-elsewhere':
+        # the document selects a clean subtree; passive markers sit in the unselected remainder
+        sel = gen.tree(rng, 2, 3, root='map')
+        sel['$output'] = True
+        base[rng.choice(['h', 'i'])] = sel
+        rest = gen.tree(rng, 1, 2, root='map')
+        rest[rng.choice(['f', 'g'])] = rng.choice(['$required', '$foo', ['$required'], {'$mtach': 1}])
+        base[rng.choice(['j', 'k'])] = rest
+        labels.add('marker:outside-selection')
     if mode == 'hidden':
         # wrap a subtree with markers under $output:false in the base
         sub = gen.tree(rng, 2, 3, root='map')
@@ -309,6 +318,9 @@ def check_case(ctx, case):
     if any(e['skip'] for e in exps):
         return res.skip(next(e['skip'] for e in exps if e['skip']))
     ops = []
+    if case.get('i', 0) % 9 == 0:
+        ops.append({'op': 'set_debug'})        # debug logging must not change what is accepted
+        res.labels.add('debug-mode')
     for i, l in enumerate(layers):
         ops.append({'op': 'merge_doc', 'id': 'L%d' % i, 'parents': ['L%d' % (i - 1)] if i else [], 'data': l})
     ops.append({'op': 'output', 'format': 'json'})
@@ -320,7 +332,7 @@ def check_case(ctx, case):
     for r in rs:
         if r.get('panic'):
             return res.violate('crash', 'panic: ' + r['panic'][:300], layers=layers)
-    merr = next((r['err'] for r in rs[:-2] if r['err'] is not None), None)
+    merr = next((r['err'] for r in rs[:-2] if r['err'] is not None and 'unknown op' not in r['err']), None)
     o = rs[-2]
     real = {'merr': merr, 'oerr': o['err'], 'failed': merr is not None or o['err'] is not None, 'is': o.get('is') or [], 'got': None}
     # (a) universal scan of every successful output, whatever the expectation
@@ -372,9 +384,13 @@ def file_check(ctx, case, res, must_fail, outs):
             name += '.l%d' % i
         with open(os.path.join(d, name + '.yaml'), 'w') as f:
             f.write(text)
-    r = cli([ctx.bin('bkl'), '-f', 'json', name + '.yaml'], cwd=d)
+    import random
+    frng = random.Random(name + str(len(texts)) + texts[0][:40])
+    dflag = [frng.choice(['-v', '--verbose'])] if frng.random() < 0.25 else []
+    denv = scrub_env({'BKL_DEBUG': '1'}) if (not dflag and frng.random() < 0.15) else None
+    r = cli([ctx.bin('bkl')] + dflag + ['-f', 'json', name + '.yaml'], cwd=d, env=denv)
     res.execs += 1
-    res.labels.add('via:cli')
+    res.labels.add('via:cli' + ('+debug' if dflag or denv else ''))
     if crashed(r.rc, r.err):
         res.violate('crash', 'bkl binary crashed rc=%s %s' % (r.rc, r.err[-200:]), layers=case['layers'])
     elif must_fail:
